@@ -62,7 +62,12 @@ func (a *ArgMax) Init(n *onnx.NodeProto) error {
 
 // Apply applies the argmax operator.
 func (a *ArgMax) Apply(inputs []tensor.Tensor) ([]tensor.Tensor, error) {
-	axis := ops.ConvertNegativeAxis(a.axis, len(inputs[0].Shape()))
+	nDims := len(inputs[0].Shape())
+	if a.axis < -nDims || a.axis >= nDims {
+		return nil, ops.ErrAxisOutOfRange(nDims, nDims, a.axis)
+	}
+
+	axis := ops.ConvertNegativeAxis(a.axis, nDims)
 
 	reduced, err := tensor.Argmax(inputs[0], axis)
 	if err != nil {
@@ -83,7 +88,7 @@ func (a *ArgMax) Apply(inputs []tensor.Tensor) ([]tensor.Tensor, error) {
 
 	// The tensor.Argmax function returns data of type int, but according to
 	// the ONNX standard this operator should return int64.
-	backing, ok := reduced.Data().([]int)
+	backing, ok := ops.IfScalarToSlice(reduced.Data()).([]int)
 	if !ok {
 		return nil, ops.ErrTypeAssert("int", reduced.Dtype())
 	}
